@@ -24,6 +24,14 @@ static std::string datastr( const char* d, size_t n )
     return "len:" + std::to_string( n ) + ":fnv:" + std::to_string( fnv( d, n ) );
 }
 
+static void save_line( FILE* out, bool r, const std::string& bytes, bool sum )
+{
+    if ( sum )
+        fprintf( out, "save=%s len=%zu fnv=%llu\n", r ? "true" : "false", bytes.size(), fnv( bytes.data(), bytes.size() ) );
+    else
+        fprintf( out, "save=%s bytes=%s\n", r ? "true" : "false", hex( bytes ).c_str() );
+}
+
 // --- independent byte patching of a saved image (no ELFIO involved)
 static unsigned long long rdf( const std::string& b, size_t off, int w, bool msb )
 {
@@ -80,8 +88,63 @@ static void run_case( const std::vector<Toks>& ops, FILE* out )
     objs.emplace_back( new Ctx );
     objs[0]->elf = std::make_unique<elfio>();
     size_t cur   = 0;
+    // every op executed so far except the ones that run the layout or replace the object:
+    // what `savefresh` re-executes to obtain the object "as built"
+    std::vector<Toks> recipe;
+    long long         full_len    = -1; // length of the complete file of the rebuilt object (cache for rel=)
+    size_t            full_len_at = 0;
     for ( auto& t : ops ) {
         const std::string& op = t[0];
+        if ( op == "savefresh" ) {
+            // save (optionally with a byte budget) of a freshly rebuilt copy of the current object;
+            // the objects of this case are not touched
+            Toks sv = t;
+            sv[0]   = "save";
+            std::string rel;
+            if ( kv( t, "rel", rel ) ) {
+                // budget relative to the length of the complete file: one more rebuilt copy is saved
+                // without budget to learn that length
+                if ( full_len < 0 || full_len_at != recipe.size() ) {
+                    recipe.push_back( Toks{ "save", "out=sum" } );
+                    char*  b0 = nullptr;
+                    size_t l0 = 0;
+                    FILE*  m0 = open_memstream( &b0, &l0 );
+                    run_case( recipe, m0 );
+                    fclose( m0 );
+                    recipe.pop_back();
+                    std::string a0( b0 ? b0 : "", l0 );
+                    free( b0 );
+                    size_t q    = a0.rfind( " len=" );
+                    full_len    = q == std::string::npos ? 0 : atoll( a0.c_str() + q + 5 );
+                    full_len_at = recipe.size();
+                }
+                long long len = full_len;
+                long long k   = len + snum( rel );
+                sv            = Toks{ "save", "budget=" + std::to_string( k < 0 ? 0 : k ) };
+                std::string o;
+                if ( kv( t, "out", o ) )
+                    sv.push_back( "out=" + o );
+                if ( kv( t, "file", o ) )
+                    sv.push_back( "file=" + o );
+            }
+            recipe.push_back( sv );
+            char*  mbuf = nullptr;
+            size_t mlen = 0;
+            FILE*  mem  = open_memstream( &mbuf, &mlen );
+            run_case( recipe, mem );
+            fclose( mem );
+            recipe.pop_back();
+            std::string all( mbuf ? mbuf : "", mlen );
+            free( mbuf );
+            while ( !all.empty() && all.back() == '\n' )
+                all.pop_back();
+            size_t nl = all.rfind( '\n' );
+            fprintf( out, "%s\n", all.substr( nl == std::string::npos ? 0 : nl + 1 ).c_str() );
+            fflush( out );
+            continue;
+        }
+        if ( op != "save" && op != "savefile" && op != "reload" )
+            recipe.push_back( t );
         if ( op == "obj" ) {
             cur = (size_t)num( t[1] );
             while ( objs.size() <= cur ) {
@@ -297,6 +360,26 @@ static void run_case( const std::vector<Toks>& ops, FILE* out )
             long long  budget = (long long)kvn( t, "budget", (unsigned long long)-1 );
             std::string d;
             bool        r;
+            if ( kvn( t, "file", 0 ) == 1 ) {
+                // file-name overload onto a real file that cannot grow beyond `budget` bytes
+                // (RLIMIT_FSIZE: the write that crosses the limit is cut short and fails with EFBIG)
+                std::string p = "/tmp/vh_savelim_" + std::to_string( getpid() ) + ".bin";
+                signal( SIGXFSZ, SIG_IGN );
+                struct rlimit old_lim, lim;
+                getrlimit( RLIMIT_FSIZE, &old_lim );
+                lim = old_lim;
+                if ( kv( t, "budget", d ) ) {
+                    lim.rlim_cur = (rlim_t)budget;
+                    setrlimit( RLIMIT_FSIZE, &lim );
+                }
+                r = c.elf->save( p );
+                setrlimit( RLIMIT_FSIZE, &old_lim );
+                unlink( p.c_str() );
+                c.saved.clear();
+                fprintf( out, "save=%s bytes=-\n", r ? "true" : "false" );
+                fflush( out );
+                continue;
+            }
             if ( kv( t, "budget", d ) ) {
                 budget_buf   bb( budget );
                 std::ostream os( &bb );
@@ -308,9 +391,37 @@ static void run_case( const std::vector<Toks>& ops, FILE* out )
                 r       = c.elf->save( os );
                 c.saved = os.str();
             }
-            fprintf( out, "save=%s bytes=%s\n", r ? "true" : "false", hex( c.saved ).c_str() );
+            save_line( out, r, c.saved, kv( t, "out", d ) && d == "sum" );
         }
-        else if ( op == "forceoverlap" && t.size() == 3 ) {
+        else if ( op == "savefile" ) {
+            // save(const std::string&): kind=ok (a writable temporary file), nodir (directory does not
+            // exist), dir (the path is a directory), full (/dev/full: every write is refused with ENOSPC)
+            std::string kind, d, p;
+            kv( t, "kind", kind );
+            bool tmp = false;
+            if ( kind == "nodir" )
+                p = "/nonexistent-dir-vh/x.elf";
+            else if ( kind == "dir" )
+                p = "/tmp";
+            else if ( kind == "full" )
+                p = "/dev/full";
+            else {
+                p   = "/tmp/vh_save_" + std::to_string( getpid() ) + ".bin";
+                tmp = true;
+            }
+            bool r = c.elf->save( p );
+            if ( tmp ) {
+                std::ifstream      f( p, std::ios::binary );
+                std::ostringstream ss;
+                ss << f.rdbuf();
+                c.saved = ss.str();
+                unlink( p.c_str() );
+                save_line( out, r, c.saved, kv( t, "out", d ) && d == "sum" );
+            }
+            else
+                fprintf( out, "save=%s bytes=-\n", r ? "true" : "false" );
+        }
+        else if ( op == "forceoverlap" && ( t.size() == 3 || t.size() == 4 ) ) {
             // in the saved image: sh_offset of section j := sh_offset of section i
             Img    m = parse_img( c.saved );
             size_t i = (size_t)num( t[1] ), j = (size_t)num( t[2] );
@@ -321,7 +432,7 @@ static void run_case( const std::vector<Toks>& ops, FILE* out )
                 continue;
             }
             unsigned long long oi = rdf( c.saved, m.shoff + i * m.shent + fo, w, m.msb );
-            wrf( c.saved, m.shoff + j * m.shent + fo, w, m.msb, oi );
+            wrf( c.saved, m.shoff + j * m.shent + fo, w, m.msb, oi + ( t.size() == 4 ? num( t[3] ) : 0 ) );
             fprintf( out, "ok\n" );
         }
         else if ( op == "skew" && t.size() == 3 ) {
